@@ -333,8 +333,39 @@ class DeMorgan(ast.NodeTransformer):
         return node
 
 
+class Annotator(ast.NodeTransformer):
+    """PEP 484 housekeeping: annotate every parameter and return, and turn the first plain assignment of a local in
+    each function into an annotated assignment."""
+
+    def _ann(self):
+        return ast.Constant(value='object')
+
+    def visit_FunctionDef(self, node):
+        self.generic_visit(node)
+        a = node.args
+        for x in a.posonlyargs + a.args + a.kwonlyargs:
+            if x.arg not in ('self', 'cls') and x.annotation is None:
+                x.annotation = self._ann()
+        for x in (a.vararg, a.kwarg):
+            if x is not None and x.annotation is None:
+                x.annotation = self._ann()
+        if node.returns is None and node.name != '__init__':
+            node.returns = self._ann()
+        seen = set()
+        declared = {n2 for st in ast.walk(node) if isinstance(st, (ast.Global, ast.Nonlocal)) for n2 in st.names}
+        for i, st in enumerate(node.body):
+            if isinstance(st, ast.Assign) and len(st.targets) == 1 and isinstance(st.targets[0], ast.Name) \
+                    and st.targets[0].id not in seen and st.targets[0].id not in declared:
+                seen.add(st.targets[0].id)
+                node.body[i] = ast.AnnAssign(target=ast.Name(id=st.targets[0].id, ctx=ast.Store()),
+                                             annotation=self._ann(), value=st.value, simple=1)
+        return node
+
+
 def transform(mode, src):
     tree = ast.parse(src)
+    if mode in ('annotate',):
+        tree = Annotator().visit(tree)
     if mode in ('rename', 'all'):
         tree = Renamer().run(tree)
     if mode in ('invert', 'all'):
